@@ -493,7 +493,8 @@ class SnapInit(FnSpec):
                 ("wf0: every inode maps to a path of the snapshot", z3.ForAll([kk], z3.Implies(ip.dom[kk], si.dom[ip.val[kk]]))),
                 ("stat data as returned (last wins)", z3.ForAll([j], z3.Implies(z3.And(j >= 0, j < k), z3.Exists([z3.Const("sj2", z3.IntSort())], z3.And(z3.Const("sj2", z3.IntSort()) >= j, z3.Const("sj2", z3.IntSort()) < k, op(z3.Const("sj2", z3.IntSort())) == op(j), si.val[op(j)] == ost(z3.Const("sj2", z3.IntSort()))))))),
                 ("root's stat data kept unless the walk reports the root again", z3.Or(z3.Exists([j], z3.And(j >= 0, j < k, op(j) == self.root)), si.val[self.root] == self.st0)),
-                ("every walked entry's inode is recorded", z3.ForAll([j], z3.Implies(z3.And(j >= 0, j < k), ip.dom[self.key(ost(j))])))]
+                ("every walked entry's inode is recorded", z3.ForAll([j], z3.Implies(z3.And(j >= 0, j < k), ip.dom[self.key(ost(j))]))),
+                ("the root's own inode is recorded (the diff looks every path's identity up in the index, the root included)", ip.dom[self.key(self.st0)])]
 
     def post(self, ex, result):
         W = self.W
@@ -504,6 +505,7 @@ class SnapInit(FnSpec):
         ex.oblige("post[snapshot contains exactly the root and the walked entries]", si.dom[P] == z3.Or(P == self.root, z3.Exists([j], z3.And(j >= 0, j < self.out.n, op(j) == P))))
         ex.oblige("post[wf0: every inode maps to a path of the snapshot]", z3.Implies(ip.dom[K], si.dom[ip.val[K]]))
         ex.oblige("post[every walked entry is in the snapshot with an inode entry]", z3.Implies(z3.And(J >= 0, J < self.out.n), z3.And(si.dom[op(J)], ip.dom[self.key(W.PE.proj[1](self.out.arr[J]))])))
+        ex.oblige("post[the root's own inode is in the index: every path of a snapshot can be found by its identity]", ip.dom[self.key(self.st0)])
         ex.oblige("post[root's stat data as returned]", z3.Or(z3.Exists([j], z3.And(j >= 0, j < self.out.n, op(j) == self.root)), si.val[self.root] == self.st0))
 
     def post_raise(self, ex, exc, site):
